@@ -282,6 +282,11 @@ class Alias(torch.nn.Module):
 		self.net = Net("dls", seed)
 		self.trunk = self.net.body
 		self.first_act = self.net.body[1]
+		# the caller's own forward hook (an activation recorder): it must
+		# still be there after every call, and must not disturb anything
+		self.recorded = []
+		self.net.body[5].register_forward_hook(
+			lambda mod, i, o: self.recorded.append(1) and None)
 
 	def forward(self, X, a=None):
 		return self.net(X, a)
